@@ -83,6 +83,10 @@ func (w *responseCompressor) Header() http.Header {
 }
 
 func (w *responseCompressor) Flush() {
+	if !w.wroteHeader {
+		// net/http would send the header now: announce the coding first
+		w.WriteHeader(http.StatusOK)
+	}
 	// flush compressor
 	if flusher, ok := w.wc.(flusher); ok {
 		if err := flusher.Flush(); err != nil {
@@ -97,7 +101,13 @@ func (w *responseCompressor) Flush() {
 
 func (w *responseCompressor) Close() error {
 	if w.wc == nil {
-		return nil
+		if !w.wroteHeader || w.encoding == "" || w.encoding == EncodingIdentity {
+			return nil
+		}
+		// a coding was announced but nothing was written: emit its empty stream
+		if _, err := w.Write(nil); err != nil {
+			return err
+		}
 	}
 	return w.wc.Close()
 }
